@@ -18,7 +18,8 @@ from contracts.common import FnObligation
 from vf import pyvc
 from vf.pyvc import Executor, Rec, SArr, Key, INT32_MAX, prove, perm_axioms, zint
 
-SRC = "/repo/jinns/data/_DataGenerators.py"
+from vf.paths import R
+SRC = R("/repo/jinns/data/_DataGenerators.py")
 META = dict(
     trusted_base=[
         "Engine A: Python subset semantics of vf/pyvc.py (mathematical integers with separate int32 obligations, reals for floats, "
